@@ -2,6 +2,7 @@
 from __future__ import annotations
 
 import asyncio
+import warnings
 
 from .. import harness as H
 from ..ref import acstate
@@ -208,7 +209,12 @@ def run_case(ctx, case):
             except Exception as e:  # noqa: BLE001
                 results.append((it, "raised", e))
                 continue
-            results.append((it, "ok", (ac.online, ac.supported, H.public_state(ac))))
+            st = H.public_state(ac)
+            with warnings.catch_warnings():
+                warnings.simplefilter("ignore")
+                # the deprecated attribute names remain part of the public interface
+                st["alias"] = {"eco": ac.eco_mode, "turbo": ac.turbo_mode, "sleep": ac.sleep_mode, "freeze_protection": ac.freeze_protection_mode}
+            results.append((it, "ok", (ac.online, ac.supported, st)))
 
     H.run_virtual(go, net)
     for it, status, val in results:
@@ -232,6 +238,9 @@ def run_case(ctx, case):
             g = got[f]
             if g != exp[f] or (exp[f] is None) != (g is None):
                 diffs[f] = (exp[f], g)
+        for f, g in got["alias"].items():
+            if g != exp[f]:
+                diffs[f + "_mode(alias)"] = (exp[f], g)
         if (body[8] & 0x40) and (body[9] & 0x08):
             # both aux-heat flags reported: which of the two modes wins is not specified, but "off" is not among the candidates
             ctx.skip("both aux-heat bits set: precedence not judged (only that aux heat is not reported off)")
